@@ -100,6 +100,30 @@ Definition reach (m : rmachine) : chip -> chip -> Prop := clos_refl_trans_1n chi
 Definition Connected (m : rmachine) : Prop :=
   forall a b, working_chip m a -> working_chip m b -> reach m a b.
 
+(* ---- the setting of the universal theorem about ner_net *)
+(* the chips of a w x h machine *)
+Definition in_range (w h : Z) (c : chip) : Prop := 0 <= fst c < w /\ 0 <= snd c < h.
+
+(* the fault-free w x h torus *)
+Definition perfect (w h : Z) : rmachine :=
+  {| rm_w := w; rm_h := h; rm_dead_chips := []; rm_dead_links := [] |}.
+
+(* the only dead links are wrap-around links: links that leave the w x h rectangle *)
+Definition only_wrap_links_dead (m : rmachine) : Prop :=
+  forall p l, In (p, l) (rm_dead_links m) ->
+              exists dx dy, dir_vec l = Some (dx, dy) /\
+                            ~ in_range (rm_w m) (rm_h m) (fst p + dx, snd p + dy).
+
+(* the machines on which ner_net alone is the whole router: no dead chip; routed as a torus
+   (wrap_around = True) no dead link; routed as a mesh (wrap_around = False) no dead link other than
+   wrap-around links *)
+Definition fault_free (m : rmachine) (wrap : bool) : Prop :=
+  rm_dead_chips m = [] /\
+  (if wrap then rm_dead_links m = [] else only_wrap_links_dead m).
+
+(* the random stream: every value drawn is the numerator k of a random.random() = k / 2^53 *)
+Definition stream_ok (s : stream) : Prop := Forall (fun k => 0 <= k < 2 ^ 53) s.
+
 (* ------------------------------------------------------------------------------------------------
    Validators *)
 Definition opt_eqb (a b : option Z) : bool :=
